@@ -1,3 +1,4 @@
+import math
 from typing import Optional, Tuple
 
 from ..expressions import (
@@ -20,6 +21,13 @@ _POS_CHAINED_RIGHT_LEFT: str = "chained_right_left"
 _POS_CHAINED_RIGHT_LEFT_LEFT: str = "chained_right_left_left"
 _POS_CHAINED_LEFT_LEFT_RIGHT: str = "chained_left_left_right"
 _POS_CHAINED_RIGHT_DEEP: str = "chained_right_deep"
+
+
+def _has_finite_value(node: MathExpression) -> bool:
+    """An operation on two constants can only be folded into a constant when it has a
+    value: 4 / 0 or 0^-1 must stay as they are instead of becoming "nan" or "inf"."""
+    value = node.evaluate()
+    return not (isinstance(value, float) and (math.isnan(value) or math.isinf(value)))
 
 
 class ConstantsSimplifyRule(BaseRule):
@@ -64,6 +72,7 @@ class ConstantsSimplifyRule(BaseRule):
                 and not isinstance(child, EqualExpression)
                 and isinstance(child.left, ConstantExpression)
                 and isinstance(child.right, ConstantExpression)
+                and _has_finite_value(child)
             ):
                 return _POS_NEGATION_SIMPLE, child.left, child.right
 
@@ -74,6 +83,7 @@ class ConstantsSimplifyRule(BaseRule):
             and not isinstance(node, EqualExpression)
             and isinstance(node.left, ConstantExpression)
             and isinstance(node.right, ConstantExpression)
+            and _has_finite_value(node)
         ):
             return _POS_SIMPLE, node.left, node.right
 
